@@ -177,6 +177,13 @@ func runC16(r *Run) {
 		r.Violate("[C16] the concurrent hammer did not terminate: some check never returned (deadlock or a wait that nothing ends)", map[string]any{"log_tail": tail(text, 3000)})
 	case strings.Contains(text, "fatal error: concurrent map"):
 		r.Violate("[C16] runtime-fatal concurrent map access under concurrent checks", map[string]any{"log_tail": tail(text, 4000)})
+	case strings.Contains(text, "HAMMER-VIOLATION "):
+		i := strings.Index(text, "HAMMER-VIOLATION ")
+		line := text[i+len("HAMMER-VIOLATION "):]
+		if j := strings.IndexByte(line, '\n'); j >= 0 {
+			line = line[:j]
+		}
+		r.Violate("[C16] "+line, map[string]any{"log_tail": tail(text, 3000)})
 	case strings.Contains(text, "HAMMER-STUCK"):
 		r.Violate("[C16] a check did not return within the watchdog period under concurrency (deadlock or unbounded wait)", map[string]any{"log_tail": tail(text, 3000)})
 	case err != nil && !race:
@@ -325,6 +332,25 @@ func runC16Hammer(r *Run) {
 			Match:   &configv1.Match{Header: "x-app", Criteria: &configv1.Match_Equality{Equality: oc.CookieNamePrefix}},
 			Filters: []*configv1.Filter{{Type: &configv1.Filter_Oidc{Oidc: oc}}}})
 	}
+	// a provider whose token endpoint is in trouble: it answers the first exchanges with 503 and a body nobody asked for
+	var stormLeft int64 = 80
+	stormIDP := httptest.NewServer(http.HandlerFunc(func(w http.ResponseWriter, req *http.Request) {
+		_ = req.ParseForm()
+		if atomic.AddInt64(&stormLeft, -1) >= 0 {
+			w.WriteHeader(503)
+			_, _ = w.Write([]byte(strings.Repeat("upstream connect error or disconnect/reset before headers. ", 40)))
+			return
+		}
+		nonce := strings.TrimPrefix(req.PostForm.Get("code"), "code-for-")
+		b, _ := json.Marshal(map[string]any{"token_type": "Bearer", "expires_in": 600, "access_token": "a",
+			"id_token": mintToken(tokSpec{Mode: "good", Exp: time.Now().Unix() + 600, Aud: "c-storm", Nonce: nonce, Sub: "u", Extra: nonce})})
+		_, _ = w.Write(b)
+	}))
+	defer stormIDP.Close()
+	storm := mk("storm", func(o *oidcv1.OIDCConfig) { o.TokenUri = stormIDP.URL + "/token"; o.JwksConfig = &oidcv1.OIDCConfig_Jwks{Jwks: keys().doc} })
+	cfg.Chains = append(cfg.Chains, &configv1.FilterChain{Name: "storm",
+		Match:   &configv1.Match{Header: "x-app", Criteria: &configv1.Match_Equality{Equality: "storm"}},
+		Filters: []*configv1.Filter{{Type: &configv1.Filter_Oidc{Oidc: storm}}}})
 	// the memory store gets a short idle timeout so that sessions expire WHILE being looked up concurrently
 	static.IdleSessionTimeout = 1
 	fac := oidc.NewSessionStoreFactory(cfg)
@@ -418,6 +444,48 @@ func runC16Hammer(r *Run) {
 				// seed the contested session directly in the store now and then (it expires 1 s later in the memory store)
 				if i%50 == 7 {
 					_ = fac.Get(oc).SetTokenResponse(context.Background(), shared, &oidc.TokenResponse{IDToken: mintToken(tokSpec{Mode: "good", Exp: time.Now().Unix() + 30, Aud: oc.ClientId, Sub: "u", Extra: "sh"})})
+				}
+			}
+		}(g)
+	}
+	// the error storm: many logins whose code exchange the provider refuses with 503, then - the provider is back - a login
+	// that must go through. Whatever the service shares between token requests (connections, transports, slots) must
+	// not be used up by answers it did not like.
+	for g := 0; g < 4; g++ {
+		wg.Add(1)
+		go func(g int) {
+			defer wg.Done()
+			for i := 0; time.Now().Before(deadline); i++ {
+				var sid, state, nonce string
+				guarded("storm-redirect", func() {
+					resp, err := filter.Check(context.Background(), httpReq("https", "app", "/storm/page", "", map[string]string{"x-app": "storm"}))
+					if err != nil || resp.GetDeniedResponse() == nil {
+						return
+					}
+					loc, _ := hdrValue(resp.GetDeniedResponse().GetHeaders(), "location")
+					sck, _ := hdrValue(resp.GetDeniedResponse().GetHeaders(), "set-cookie")
+					u, _ := url.Parse(loc)
+					cs := (&http.Response{Header: http.Header{"Set-Cookie": []string{sck}}}).Cookies()
+					if u != nil && len(cs) == 1 {
+						sid, state, nonce = cs[0].Value, u.Query().Get("state"), u.Query().Get("nonce")
+					}
+				})
+				if sid == "" {
+					continue
+				}
+				wasHealthy := atomic.LoadInt64(&stormLeft) < -8 // well past the storm (requests in flight at the turn excluded)
+				guarded("storm-callback", func() {
+					resp, err := filter.Check(context.Background(), httpReq("https", "app", "/storm/callback?code=code-for-"+nonce+"&state="+state, "", map[string]string{"x-app": "storm", "cookie": cookieNameFor("storm") + "=" + sid}))
+					count("storm:callback")
+					if wasHealthy && err == nil {
+						if loc, _ := hdrValue(resp.GetDeniedResponse().GetHeaders(), "location"); loc != "https://app/storm/page" {
+							fmt.Println("HAMMER-VIOLATION the provider's token endpoint is healthy again after a series of 503 answers, but logins still fail: " + showResp(resp, nil))
+							os.Exit(4)
+						}
+					}
+				})
+				if i > 400 {
+					time.Sleep(5 * time.Millisecond)
 				}
 			}
 		}(g)
